@@ -232,15 +232,16 @@ def gen_c11(rng, tier):
     cases = []
     imgs = []
     sts = gen_states(rng, tier); rng.shuffle(sts)
-    for (kind, empty, ordered, sh, theta, ents) in sts[:(12 if tier == 'quick' else 90)]:
+    for (kind, empty, ordered, sh, theta, ents) in sts[:(12 if tier == 'quick' else 36)]:
         imgs.append((kind, py_enc_t(sw_of(kind), empty, ordered, sh, theta, ents), len(ents)))
     ars = gen_array_images(rng, tier); rng.shuffle(ars)
-    for (empty, ordered, sh, theta, nv, ents) in ars[:(8 if tier == 'quick' else 60)]:
+    for (empty, ordered, sh, theta, nv, ents) in ars[:(8 if tier == 'quick' else 24)]:
         imgs.append((3, py_enc_a(empty, ordered, sh, theta, nv, ents), len(ents)))
     for ci, (kind, img, n) in enumerate(imgs):
         tags = (['entries'] if n else []) + (['array'] if kind == 3 else [])
         ops = []; expect = {}
-        lens = range(len(img)) if len(img) <= 90 or tier == 'thorough' else sorted(set(list(range(0, 48)) + rng.sample(range(48, len(img)), 30) + [len(img) - 1]))
+        cap = 90 if tier == 'quick' else 400
+        lens = range(len(img)) if len(img) <= cap else sorted(set(list(range(0, 48)) + rng.sample(range(48, len(img)), cap // 3) + [len(img) - 1]))
         for L in lens:
             ops.append([31, kind, SEED_HASH] + img[:L]); expect[len(ops) - 1] = ('reject',)
             ops.append([32, kind, SEED_HASH] + img[:L]); expect[len(ops) - 1] = ('reject',)
